@@ -64,6 +64,30 @@ def handle (line : String) : Out :=
         | none => "*"
       { model, spec }
     | none => badOp
+  | "seq" :: rest => two none rest
+  | "conc" :: k :: rest => (match parseNat? k with | some k => two (some k) rest | none => badOp)
   | _ => badOp
+where
+  /-- two calls on one connection: the busy lock serialises them, so the outcome is the range
+      request's outcome followed by the single-block request's, whatever the interleaving -/
+  two (k : Option Nat) (rest : List String) : Out :=
+    match rest with
+    | [sc1, w, sc2] =>
+      match parseScript sc1, parseNat? w, parseScript sc2 with
+      | some ev1, some want, some ev2 =>
+        let wf := wellFormedBatch ev1
+        let okShape := (ev1 == [Ev.noBlocks] && k.isNone) || wf.isSome
+        let kOk := match k with | none => true | some k => wf.isSome && 1 ≤ k && k < ev1.length
+        if !okShape || !kOk || want ≥ 8 then badOp else
+        let s := rangeRun ev1
+        let ret := match s.result with | none => "ok" | some r => renderRes r
+        let r1 := s!"r1: ret={ret} cb={renderList s.cbs} done={s.done}"
+        let r2 := match getBlock want ev2 with | .res r => renderRes r | .hang => "HANG"
+        -- property: the first request is delivered in order and completes; the second is
+        -- answered with the requested block or an error — it neither hangs on the busy lock
+        -- nor steals blocks of the running batch
+        { model := s!"{r1} | r2: {r2}", spec := s!"{r1} | r2: ok:{want}||{r1} | r2: err:*" }
+      | _, _, _ => badOp
+    | _ => badOp
 
 end GV.Drv.C23
